@@ -128,6 +128,80 @@ mod native {
         assert!(docs >= 84);
     }
 
+    // C17 "the ordered file list equals what the document says", with entries a reader cannot hold (negative length, path that is
+    // not UTF-8) mixed in: whatever the parser does with those (skip them, or refuse the document), every file it reports must be
+    // ONE entry of the document -- that entry's path with that entry's length -- and the reported files keep the document's order.
+    // BOUNDED: every document of 2..=3 entries over {valid short, valid long, negative length, non-UTF-8 path}.
+    #[test]
+    fn native_c17_file_list_with_unreadable_entries() {
+        let mut docs = 0;
+        for n in 2..=3usize {
+            for code in 0..4usize.pow(n as u32) {
+                let kinds: Vec<usize> = (0..n).map(|i| code / 4usize.pow(i as u32) % 4).collect();
+                let mut entries: Vec<(i64, Vec<u8>)> = vec![];
+                for (i, k) in kinds.iter().enumerate() {
+                    let name = format!("f{}", i).into_bytes();
+                    entries.push(match k { 0 => (3 + i as i64, name), 1 => (300 + i as i64, name), 2 => (-1 - i as i64, name), _ => (5 + i as i64, vec![b'x', 0xFF, b'0' + i as u8]) });
+                }
+                let valid: Vec<(String, u64)> = entries.iter().filter(|(l, p)| *l >= 0 && std::str::from_utf8(p).is_ok())
+                    .map(|(l, p)| (String::from_utf8(p.clone()).unwrap(), *l as u64)).collect();
+                let total: u64 = valid.iter().map(|(_, l)| *l).sum();
+                let pl = 4u64;
+                let pieces = ((total + pl - 1) / pl) as usize;
+                let mut d = b"d8:announce3:url4:infod5:filesl".to_vec();
+                for (l, p) in entries.iter() {
+                    d.extend(format!("d6:lengthi{}e4:path{}:", l, p.len()).into_bytes());
+                    d.extend_from_slice(p);
+                    d.push(b'e');
+                }
+                d.extend(format!("e4:name1:n12:piece lengthi{}e6:pieces{}:", pl, 20 * pieces).into_bytes());
+                d.extend(std::iter::repeat(9u8).take(20 * pieces));
+                d.extend_from_slice(b"ee");
+                if let Ok(m) = Metainfo::from_bencode(&d) {
+                    let got: Vec<(String, u64)> = m.files.iter().map(|f| (f.path.clone(), f.length)).collect();
+                    let mut from = 0;
+                    for g in got.iter() {
+                        match valid[from..].iter().position(|v| v == g) {
+                            Some(k) => from += k + 1,
+                            None => panic!("entries {:?}: the parser reports the file {:?}, which is not an entry of the document (in order); readable entries are {:?}", entries, g, valid),
+                        }
+                    }
+                }
+                docs += 1;
+            }
+        }
+        assert!(docs == 16 + 64);
+    }
+
+    // C17 "parsing any byte string as metainfo terminates without panicking" / faithful numbers: documents whose length or piece
+    // length is an integer at the edge of i64 / u64 (or beyond) are refused or read exactly -- never a panic, never another number.
+    // BOUNDED: 26 integer texts x {length, piece length}.
+    #[test]
+    fn native_c17_extreme_numbers_are_refused_or_exact() {
+        let texts = ["0", "1", "-1", "-0", "9223372036854775807", "9223372036854775808", "-9223372036854775807", "-9223372036854775808",
+                     "-9223372036854775809", "18446744073709551615", "18446744073709551616", "-18446744073709551615", "-18446744073709551505",
+                     "-18446744073709551616", "4294967295", "4294967296", "-4294967296", "2147483648", "-2147483648", "99999999999999999999",
+                     "-99999999999999999999", "00", "01", "1e", "", "-"];
+        let mut checked = 0;
+        for t in texts {
+            for field in ["length", "piece length"] {
+                let (len_txt, pl_txt) = if field == "length" { (t.to_string(), "4".to_string()) } else { ("5".to_string(), t.to_string()) };
+                let mut d = format!("d8:announce3:url4:infod6:lengthi{}e4:name1:n12:piece lengthi{}e6:pieces40:", len_txt, pl_txt).into_bytes();
+                d.extend(std::iter::repeat(9u8).take(40));
+                d.extend_from_slice(b"ee");
+                let r = std::panic::catch_unwind(|| Metainfo::from_bencode(&d));
+                let r = match r { Ok(r) => r, Err(_) => panic!("from_bencode PANICKED on a document whose {} is i{}e", field, t) };
+                if let Ok(m) = r {
+                    let want: i128 = t.parse().unwrap_or_else(|_| panic!("a document whose {} is the ill-formed integer i{}e was accepted", field, t));
+                    let got: i128 = if field == "length" { m.total_length() as i128 } else { m.piece_length as i128 };
+                    assert!(got == want, "a document whose {} is i{}e was read as {}", field, t, got);
+                }
+                checked += 1;
+            }
+        }
+        assert!(checked == 52);
+    }
+
     // C17 "name ... equal what the document says": for names that are valid UTF-8 the model holds exactly those bytes; a name
     // that is not valid UTF-8 cannot be held by a String, so the document must be rejected (never silently altered).  BOUNDED:
     // every 1- and 2-byte name over {a, 0x80, 0xC3, 0xA9, 0xE9, 0xFF} plus "caf\xE9" and "caf\xC3\xA9".
